@@ -168,7 +168,11 @@ fn cmd_loghash(args: &[String]) -> i32 {
                 h ^= b as u64;
                 h = h.wrapping_mul(0x0000_0100_0000_01b3);
             }
-            writeln!(out, "{prop} {i} {k} {h:016x}").unwrap();
+            // runs in which the gate had to fall back (a unit arrived late / never arrived: machine
+            // overload or a refactor) are not exactly replayable by design; mark them
+            let unstable = s.contains("\"late_units\":") && !s.contains("\"late_units\":0")
+                || s.contains("\"incomplete_units\":true");
+            writeln!(out, "{prop} {i} {k} {}", if unstable { "UNSTABLE".to_string() } else { format!("{h:016x}") }).unwrap();
             if std::env::var("BWSIM_DUMP").is_ok() {
                 writeln!(out, "{s}").unwrap();
             }
